@@ -73,10 +73,29 @@ func (Builder) Generate(seed uint64, tier string) engine.Plan {
 				op.Pos = append(op.Pos, q)
 			}
 		}
-		off += int64(op.Size)
+		if r.Chance(1, 20) {
+			// … and rarely ONE step of more than 2^26 bits (a million words at
+			// once: beyond any growth policy's idea of a reasonable increment),
+			// as one Extend or one Set; few steps follow (every check is linear)
+			giant := int32(r.PickInt64(1<<26+64, 1<<26+1<<22+1, 1<<27))
+			if r.Chance(1, 2) {
+				op.Size = giant
+				op.Pos = []int32{0, giant - 1}
+			} else {
+				op = BOp{Op: "set", Bit: giant, Val: 1}
+			}
+			if nops > 2 {
+				nops = 2
+			}
+		}
+		if op.Op == "set" {
+			off = int64(op.Bit) + 1
+		} else {
+			off += int64(op.Size)
+		}
 		p.Ops = append(p.Ops, op)
 	}
-	for i := 0; i < nops && off < 1<<22; i++ {
+	for i := 0; i < nops && (off < 1<<22 || (off > 1<<26 && i < 2)); i++ {
 		if r.Intn(10) < setProb {
 			op := BOp{Op: "set", Val: int32(r.PickInt(1, 1, 1, 0))}
 			switch r.Intn(6) {
@@ -417,12 +436,14 @@ func clip32(a []int32) []int32 {
 // probeBitmap exercises the reader functions on a bitmap whose set bits are
 // known (want, ascending).
 func probeBitmap(words []uint64, want []int32, seed uint64, step int, c *engine.RunCtx, guard func(func() string, func()) bool) *engine.Failure {
-	var arr []int32
-	if !guard(func() string { return "ToArray" }, func() { arr = bitmap.ToArray(words) }) {
-		return nil
-	}
-	if !int32sEqual(arr, want) {
-		return engine.Failf("C12.toarray", step, "ToArray = %v, want %v", clip32(arr), clip32(want))
+	arr := want
+	if len(words) <= 1<<19 { // (ToArray visits every BIT: skipped above 2^25 bits)
+		if !guard(func() string { return "ToArray" }, func() { arr = bitmap.ToArray(words) }) {
+			return nil
+		}
+		if !int32sEqual(arr, want) {
+			return engine.Failf("C12.toarray", step, "ToArray = %v, want %v", clip32(arr), clip32(want))
+		}
 	}
 	var back []uint64
 	if !guard(func() string { return "Of(ToArray(b))" }, func() { back = bitmap.Of(arr) }) {
